@@ -74,6 +74,9 @@ def run(ctx):
     rule_ptr(ctx, F)
     rule_loop(ctx, F)
     rule_fuse(ctx, F)
+    rule_fuse_wrapper(ctx, F)
+    rule_ptrmask(ctx, F)
+    rule_lensub(ctx, F)
     rule_sub(ctx, F)
     rule_ts(ctx, F)
     rule_ovf(ctx, F)
@@ -381,6 +384,164 @@ def rule_fuse(ctx, F):
                     okg = True
         ctx.ob(R, b, "parse only while count > 0", okg,
                "the section iterator must only parse while the remaining count is Ok(n), n > 0")
+
+
+def _maybe_bits(t, depth=0):
+    """bits that may be set in an unsigned value built from octets with masks, shifts and ORs; None if unknown"""
+    t = deep_strip(t)
+    if depth > 30:
+        return None
+    cv = const_value(t)
+    if cv is not None and isinstance(cv, int):
+        return cv
+    k = t[0]
+    if k == "idx":
+        return 0xFF                      # an element of an octet slice
+    if k in ("field", "downcast", "deref", "ref"):
+        return _maybe_bits(t[1], depth + 1)
+    if k == "cast":
+        inner = _maybe_bits(t[2], depth + 1)
+        m = re.match(r"^u(8|16|32|64|size)$", str(t[3]) if len(t) > 3 else "")
+        if inner is None:
+            return None
+        return inner & ((1 << (64 if not m or m.group(1) == "size" else int(m.group(1)))) - 1)
+    if k == "call":
+        fn = t[1] or ""
+        if re.search(r"::(parse_u8|peek_u8)$", fn):
+            return 0xFF
+        if re.search(r"Try::branch$|::(from|into|unwrap|expect|clone)$", fn) and t[3]:
+            return _maybe_bits(t[3][0], depth + 1)
+        if re.search(r"u16>::from_be_bytes$|<impl u16>::from_be_bytes$|u16::from_be_bytes$", fn) and t[3]:
+            a = deep_strip(t[3][0])
+            if a[0] == "agg" and len(a[2]) == 2:
+                hi, lo = _maybe_bits(a[2][0], depth + 1), _maybe_bits(a[2][1], depth + 1)
+                if hi is not None and lo is not None:
+                    return ((hi & 0xFF) << 8) | (lo & 0xFF)
+            return 0xFFFF
+        return None
+    if k == "bin":
+        op = t[1].replace("WithOverflow", "").replace("Unchecked", "")
+        a, c = _maybe_bits(t[2], depth + 1), _maybe_bits(t[3], depth + 1)
+        if op == "BitAnd":
+            if a is None and c is None:
+                return None
+            return (a if a is not None else (1 << 64) - 1) & (c if c is not None else (1 << 64) - 1)
+        if a is None or c is None:
+            return None
+        if op in ("BitOr", "BitXor"):
+            return a | c
+        if op == "Shl" and const_value(deep_strip(t[3])) is not None:
+            return a << const_value(deep_strip(t[3]))
+        if op == "Shr" and const_value(deep_strip(t[3])) is not None:
+            return a >> const_value(deep_strip(t[3]))
+        if op == "Add":
+            return (1 << (a + c).bit_length()) - 1
+        return None
+    return None
+
+
+def rule_ptrmask(ctx, F):
+    """A compression pointer is the low 14 bits of two octets.  Every place of the established codec that turns the
+    two octets into an offset (`LabelType::Compressed(..)`) can produce exactly the bits 0x3FFF -- a decoder that
+    masks differently (10 bits, 13 bits, 16 bits) disagrees with its siblings for some offsets, and walks that mix
+    them (parse with one, parent / split_first with the other) leave the name."""
+    R = "C01.ptrmask"
+    ctx.floor(R, 2)
+    n = 0
+    for p, b in sorted(F.bodies.items()):
+        if p.startswith(("new::", "<new::")) or "::test" in p:
+            continue
+        for bi in sorted(b.reachable_blocks()):
+            for st in b.blocks[bi]["s"]:
+                if st[0] == "=" and st[2][0] == "agg" and st[2][1][0] == "adt" and str(st[2][1][1]).endswith("name::parsed::LabelType") \
+                        and "Compressed" in str(st[2][1][2]) and st[2][2]:
+                    n += 1
+                    tm = b.term_of_operand(st[2][2][0])
+                    bits = _maybe_bits(tm)
+                    ctx.ob(R, b, "pointer value has exactly 14 bits", bits == 0x3FFF,
+                           "%s builds a compression pointer whose possible bits are %s (from %s), not 0x3fff: it resolves some "
+                           "pointers to another offset than the other decoders of the same octets do"
+                           % (p.split("::")[-2] + "::" + p.split("::")[-1], "unknown (shape not recognised)" if bits is None else hex(bits), show(deep_strip(tm))[:120]),
+                           b.where(bi))
+    ctx.call_sites += n
+
+
+SUB_AUDIT = [
+    (r"^base::name::absolute::Name::<Octs>::into_relative$", "a Name is never empty: it ends with the root label (typestate, C03)"),
+    (r"^base::rdata::compose_prefixed$", "two length octets were appended to the target a few lines above (C02.prefix)"),
+]
+
+
+def rule_lensub(ctx, F, R="C01.lensub"):
+    """`x.len() - k` with a constant k wraps (release) or panics (debug, and the slice index that follows) when the
+    slice is shorter than k: in the wire and record-data code every such subtraction lies behind a branch that
+    establishes `len >= k` for that very slice, or is audited with the invariant it relies on.  (Display of a record
+    evaluates such code for whatever octets the record was parsed from.)"""
+    ctx.floor(R, 4)
+    n = 0
+    for p, b in sorted(F.bodies.items()):
+        if not re.match(r"^<?(rdata|base)::", p) or "::test" in p or "builder" in p.lower():
+            continue
+        for bi in sorted(b.reachable_blocks()):
+            if b.blocks[bi].get("c"):
+                continue
+            for st in b.blocks[bi]["s"]:
+                if not (st[0] == "=" and st[2][0] == "bin" and st[2][1] == "SubWithOverflow"):
+                    continue
+                x = deep_strip(b.term_of_operand(st[2][2]))
+                k = const_value(deep_strip(b.term_of_operand(st[2][3])))
+                if k is None or not ((x[0] == "call" and (x[1] or "").endswith("::len")) or x[0] == "len"):
+                    continue
+                n += 1
+                why = next((w for rx, w in SUB_AUDIT if re.search(rx, p)), None)
+                if why:
+                    ctx.ob(R, b, "len - %d#%d" % (k, n), True, where=b.where(bi), nontrivial=False, detail="audited: " + why)
+                    continue
+                lo, hi, excl = interval_of(b, bi, lambda tt: canon_nobb(tt) == canon_nobb(x), F)
+                ctx.ob(R, b, "len - %d behind len >= %d" % (k, k), lo is not None and lo >= k,
+                       "%s computes %s - %d where the branches in front of it only establish a length of at least %s: for a shorter "
+                       "value the subtraction wraps / panics (a %d-octet field parsed from the wire is enough)"
+                       % (p.split("::")[-1], show(x)[:60], k, lo, (lo if lo is not None else 0)), b.where(bi))
+    ctx.call_sites += n
+
+
+def rule_fuse_wrapper(ctx, F):
+    """MessageIter walks the three record sections through an Option<RecordSection>.  When moving on to the next
+    section fails, the error it yields has to be the last thing it yields: every `Some(Err(..))` built in its
+    `next` lies behind a change of `self.inner` (`take()` or an assignment) -- otherwise the failed section stays
+    in place and `Message::iter()` returns the same error for ever."""
+    R = "C01.fuse"
+    b = F.body("<base::message::MessageIter<'a, Octs> as core::iter::Iterator>::next")
+    if not ctx.anchor(R, "<MessageIter as Iterator>::next", b):
+        return
+    changes = []
+    for bi in b.reachable_blocks():
+        if b.blocks[bi].get("c"):
+            continue
+        for st in b.blocks[bi]["s"]:
+            if st[0] == "=" and len(st[1]) > 1:
+                tgt = deep_strip(b.term_of_place(st[1]))
+                if tgt == ("field", ("arg", 1), "inner"):
+                    changes.append(bi)
+        t = b.blocks[bi]["t"]
+        if t["k"] == "call" and re.search(r"Option::<.*>::(take|replace)$", t["fn"] or "") and t["args"]:
+            tm = deep_strip(b.term_of_operand(t["args"][0]))
+            if tm == ("field", ("arg", 1), "inner"):
+                changes.append(bi)
+    sites = []
+    for rb, si, kind, term in return_assignments(b):
+        if kind == "Some" and term is not None and term[0] == "agg":
+            inner = deep_strip(term[2][0]) if term[2] else None
+            if inner is not None and inner[0] == "agg" and inner[1][:3] == ("adt", "core::result::Result", "Err"):
+                sites.append(rb)
+    if not ctx.anchor(R, "Some(Err(..)) built in MessageIter::next and its state changes", len(sites) >= 1 and len(changes) >= 1, b.where()):
+        return
+    for rb in sites:
+        ok, pth = must_pass(b, 0, [rb], changes)
+        ctx.ob(R, b, "an error from moving to the next section ends the iteration", ok,
+               "MessageIter::next returns Some(Err(..)) on a path that leaves self.inner as it was (%s): the section whose "
+               "successor could not be parsed stays current, and every further call yields the same error -- "
+               "`msg.iter().filter_map(Result::ok).count()` never returns" % fmt_path(pth), b.where(rb))
 
 
 # ---------------------------------------------------------------------------
